@@ -176,7 +176,13 @@ impl<G: SerializeElement> SerializeElement for Vec<G> {
             where
                 A: SeqAccess<'de>,
             {
-                let mut elems = Vec::with_capacity(seq.size_hint().unwrap_or(0));
+                // The size hint comes from an untrusted length prefix: never pre-allocate more
+                // than a small, fixed amount on its say-so.
+                let cap = seq
+                    .size_hint()
+                    .unwrap_or(0)
+                    .min(4096 / std::mem::size_of::<G>().max(1));
+                let mut elems = Vec::with_capacity(cap);
                 while let Some(elem) = seq.next_element::<DeWrapper<G>>()? {
                     elems.push(elem.0);
                 }
@@ -245,7 +251,9 @@ impl<G: SerializeElement, const N: usize> SerializeElement for [G; N] {
             {
                 let mut elems = ArrayVec::new();
                 while let Some(elem) = seq.next_element::<DeWrapper<G>>()? {
-                    elems.push(elem.0);
+                    elems
+                        .try_push(elem.0)
+                        .map_err(|_| de::Error::custom("wrong number of elements for array"))?;
                 }
                 elems
                     .into_inner()
